@@ -19,14 +19,18 @@ fn dist_to_pole(x: f64) -> f64 {
     (x - k).abs()
 }
 /// tolerance scale: 1 away from poles, growing like 1/(2·dist) towards a pole
+/// (capped at 2^39, so that the bound never exceeds 6 %: arguments next to the pole at 0 are exactly
+/// representable and are judged all the way down to the smallest f32)
 fn scale(x: f64) -> f64 {
-    (0.5 / dist_to_pole(x)).max(1.0)
+    (0.5 / dist_to_pole(x)).clamp(1.0, 549755813888.0)
 }
 fn region(x: f64) -> &'static str {
     if x >= 143.0 {
         "[143,171.6)"
     } else if x >= 0.5 {
         "[0.5,143)"
+    } else if x.abs() < POLE_R {
+        "next-to-0"
     } else if x > 0.0 {
         "(0,0.5)"
     } else if x > -142.0 {
@@ -38,7 +42,7 @@ fn region(x: f64) -> &'static str {
 
 fn check_gamma(run: &Run, x: f64) -> bool {
     // returns true if judged
-    if dist_to_pole(x) < POLE_R {
+    if dist_to_pole(x) < POLE_R && !(x.abs() < POLE_R) {
         return false;
     }
     let want = c_tgamma(x);
@@ -97,7 +101,7 @@ fn f32_sweep<F: Fn(f64) -> bool + Sync>(run: &Run, lo: f32, hi: f32, stride: u32
 }
 
 pub fn run(run: &Run) {
-    run.rule("gamma: every f32-representable argument in (-170,171.6) outside |x-k|<2^-10 (thorough; every 16th with a seed-chosen offset in quick) plus integers, half-integers and ±8 f64-ulps around them; beta on a 12x12 parameter lattice; digamma on all integers ≤ 1e4 (harmonic numbers), a geometric lattice to 1e6 and an f32 sweep of [1e-3,64]; erf on every f32 in [-6,6] (strided quick) and a lattice to ±40; identities on adjacent points; every argument is a distinct non-trivial case");
+    run.rule("gamma: every f32-representable argument in (-170,171.6) outside |x-k|<2^-10 for the poles k ≤ -1 and down to the smallest subnormal f32 (and f64 decades to 1e-307) next to the pole at 0 (thorough; every 16th with a seed-chosen offset in quick) plus integers, half-integers and ±8 f64-ulps around them; beta on a 12x12 parameter lattice; digamma on all integers ≤ 1e4 (harmonic numbers), a geometric lattice to 1e6 and an f32 sweep of [1e-3,64]; erf on every f32 in [-6,6] (strided quick) and a lattice to ±40; identities on adjacent points; every argument is a distinct non-trivial case");
     let stride: u32 = if run.thorough() { 1 } else { 16 };
     let offset: u32 = (run.seed % stride as u64) as u32;
     run.bound("f32 stride", format!("{} (offset {})", stride, offset));
@@ -107,6 +111,19 @@ pub fn run(run: &Run) {
     // ---- gamma ------------------------------------------------------------------------------
     f32_sweep(run, POLE_R as f32, 171.6, stride, offset, |x| check_gamma(run, x));
     f32_sweep(run, -(POLE_R as f32), -170.0, stride, offset, |x| check_gamma(run, x));
+    // the neighbourhood of the pole at 0, down to the smallest subnormal f32 (Γ ≈ 1/x stays finite)
+    f32_sweep(run, f32::from_bits(1), POLE_R as f32, stride, offset, |x| check_gamma(run, x));
+    f32_sweep(run, -f32::from_bits(1), -(POLE_R as f32), stride, offset, |x| check_gamma(run, x));
+    for e in 46..=307 {
+        for m in [1.0, -1.0, 3.7, -7.3] {
+            let x = m * 10f64.powi(-e);
+            if check_gamma(run, x) {
+                run.case();
+                run.tr();
+                run.ok();
+            }
+        }
+    }
     run.outcome(&"gamma-sweep-done");
     let mut pts: Vec<f64> = Vec::new();
     for k in -339..=343 {
